@@ -197,7 +197,7 @@ MINE = {
  "C03-j": ("missed", "all routing files through ONE openapiv3 invocation under GOMAXPROCS 2, 3, 4 and 7: every service's document must be the one its own invocation gave; 3/5/7 services per invocation in the shared corpus, repeats under GOMAXPROCS 1-7"),
  "C04-j": ("missed by C04 (needs generate_mock=true in a multi-file invocation: caught by C15's parameter x order variations)", ""),
  "C05-j": ("caught as built", ""),
- "C06-j": ("missed (a wrapper type in ANOTHER Go package that is not part of the invocation; the arrangement was tried in c04split and withdrawn: types-only packages do not build on the unchanged tree for a reason of their own)", ""),
+ "C06-j": ("missed by C06 and by every neighbour", "c04split arrangement other-go-package: the helper types live in another Go package generated by an invocation of its own (C04, C05, C14); the lab now drops the importers of a lab package that does not build; found and recorded a genuine defect on the way (flatten children / oneof variants of another Go package are named unqualified)"),
  "C07-j": ("caught as built", ""),
  "C08-j": ("missed by C08 (one invocation per file of a package: caught by c04split under C04, C05 and C14)", ""),
  "C09-j": ("missed", "same-named decoy services (see C01-j): header declarations cached by service and method name are poisoned by the twin"),
